@@ -6,13 +6,13 @@ import Stab.Model.Engine
 namespace Stab.Engine
 
 @[simp] theorem applyEff_ledger (s : State) (e : Eff) : (applyEff s e).ledger = s.ledger := by
-  cases e <;> simp [applyEff] <;> split <;> rfl
+  cases e <;> simp only [applyEff] <;> (try split) <;> rfl
 
 @[simp] theorem applyEff_execCount (s : State) (e : Eff) : (applyEff s e).execCount = s.execCount := by
-  cases e <;> simp [applyEff] <;> split <;> rfl
+  cases e <;> simp only [applyEff] <;> (try split) <;> rfl
 
 theorem applyEff_canceled_mono (s : State) (e : Eff) (h : s.canceled = true) : (applyEff s e).canceled = true := by
-  cases e <;> simp [applyEff, h] <;> split <;> simp [h]
+  cases e <;> simp only [applyEff] <;> (try split) <;> simp [h]
 
 @[simp] theorem applyTxn_ledger (s : State) (t : Txn) : (applyTxn s t).ledger = s.ledger := by
   unfold applyTxn
@@ -44,6 +44,7 @@ theorem applyTxns_canceled_mono (s : State) (ts : List Txn) (h : s.canceled = tr
 @[simp] theorem claimRow_stages (s : State) (id : Nat) : (claimRow s id).stages = s.stages := rfl
 @[simp] theorem claimRow_wfStatus (s : State) (id : Nat) : (claimRow s id).wfStatus = s.wfStatus := rfl
 @[simp] theorem claimRow_processed (s : State) (id : Nat) : (claimRow s id).processed = s.processed := rfl
+@[simp] theorem claimRow_audit (s : State) (id : Nat) : (claimRow s id).audit = s.audit := rfl
 @[simp] theorem ackRow_ledger (s : State) (id : Nat) : (ackRow s id).ledger = s.ledger := rfl
 @[simp] theorem ackRow_canceled (s : State) (id : Nat) : (ackRow s id).canceled = s.canceled := rfl
 @[simp] theorem ackRow_stages (s : State) (id : Nat) : (ackRow s id).stages = s.stages := rfl
@@ -67,7 +68,7 @@ theorem afterHandle_canceled_mono (c : Cfg) (s : State) (row : Row) (k : Option 
     (afterHandle c s row k).canceled = true := by
   unfold afterHandle
   apply applyTxns_canceled_mono
-  split <;> simp [recordExec_canceled, h]
+  simp [handle_not_ran_of_canceled c s row h, h]
 
 theorem deliverRow_ledger_of_canceled (c : Cfg) (s : State) (row0 : Row) (ack : Bool) (k : Option Nat)
     (h : s.canceled = true) : (deliverRow c s row0 ack k).ledger = s.ledger := by
